@@ -98,20 +98,36 @@ func (fc *funcCtx) tryInline(st *State, callee *ssa.Function, args []Value) (res
 			}
 		}
 	}
-	// a computation over plain values: parameters and results of basic types only
+	// a computation that only reads: values, strings, slices, structs and maps may come in and go out,
+	// pointers, channels and functions may not (what they reach could be written by a library call)
 	sig := callee.Signature
+	readOnlyType := func(t types.Type) bool {
+		return !typeHasPointerLike(t, map[types.Type]bool{})
+	}
 	for i := 0; i < sig.Params().Len(); i++ {
-		if _, ok := scalarSort(sig.Params().At(i).Type()); !ok {
+		if !readOnlyType(sig.Params().At(i).Type()) {
 			return nil, false, false
 		}
 	}
 	for i := 0; i < sig.Results().Len(); i++ {
-		if _, ok := scalarSort(sig.Results().At(i).Type()); !ok {
+		if !readOnlyType(sig.Results().At(i).Type()) {
 			return nil, false, false
 		}
 	}
-	if sig.Recv() != nil {
+	if sig.Recv() != nil && !readOnlyType(sig.Recv().Type()) {
 		return nil, false, false
+	}
+	for _, b := range callee.Blocks {
+		for _, ins := range b.Instrs {
+			if c, ok := ins.(ssa.CallInstruction); ok {
+				if bi, ok := c.Common().Value.(*ssa.Builtin); ok {
+					switch bi.Name() {
+					case "append", "copy", "delete", "close":
+						return nil, false, false // would write storage shared with the caller
+					}
+				}
+			}
+		}
 	}
 	e := fc.e
 	pos := e.fset.Position(callee.Pos())
@@ -772,4 +788,32 @@ func (fc *funcCtx) applyPure(st *State, fid Sc, com *ssa.CallCommon) (Value, boo
 	fc.e.used["callbacks passed in slices are deterministic, side-effect-free functions ("+name+")"] = true
 	fc.e.mu.Unlock()
 	return Sc{app(name, args...), rs}, true
+}
+
+// typeHasPointerLike: the type contains a pointer, channel, function or interface somewhere.
+func typeHasPointerLike(t types.Type, seen map[types.Type]bool) bool {
+	if seen[t] {
+		return false
+	}
+	seen[t] = true
+	switch u := t.Underlying().(type) {
+	case *types.Basic:
+		return u.Kind() == types.UnsafePointer
+	case *types.Pointer, *types.Chan, *types.Signature, *types.Interface:
+		return true
+	case *types.Slice:
+		return typeHasPointerLike(u.Elem(), seen)
+	case *types.Array:
+		return typeHasPointerLike(u.Elem(), seen)
+	case *types.Map:
+		return typeHasPointerLike(u.Key(), seen) || typeHasPointerLike(u.Elem(), seen)
+	case *types.Struct:
+		for i := 0; i < u.NumFields(); i++ {
+			if typeHasPointerLike(u.Field(i).Type(), seen) {
+				return true
+			}
+		}
+		return false
+	}
+	return true
 }
